@@ -1,3 +1,5 @@
+// Package c15: malformed bytecode is rejected with an error, never a crash or
+// a silent accept.
 package c15
 
 import (
@@ -5,7 +7,124 @@ import (
 	"vharness/vrt"
 )
 
-// ParseLoad: arbitrary bytes through the LOAD argument decoder.
+// refSym consumes a length-prefixed symbol (length 1..255).
+func refSym(b []byte) ([]byte, bool) {
+	if len(b) == 0 {
+		return nil, false
+	}
+	l := int(b[0])
+	if l == 0 || len(b) < 1+l {
+		return nil, false
+	}
+	return b[1+l:], true
+}
+
+// refInt consumes a length-prefixed big-endian integer (length 0..4).
+func refInt(b []byte) ([]byte, bool) {
+	if len(b) == 0 {
+		return nil, false
+	}
+	l := int(b[0])
+	if l > 4 || len(b) < 1+l {
+		return nil, false
+	}
+	return b[1+l:], true
+}
+
+// RefValid is the reference decoder of DESIGN.md appendix A.5: b is a
+// concatenation of complete instructions with defined opcodes.
+func RefValid(b []byte) bool {
+	for len(b) > 0 {
+		if len(b) < 2 {
+			return false
+		}
+		op := uint16(b[0])<<8 | uint16(b[1])
+		b = b[2:]
+		ok := true
+		switch op {
+		case vm.NOOP, vm.HALT, vm.MSINK:
+		case vm.CATCH:
+			if b, ok = refSym(b); ok {
+				if b, ok = refInt(b); ok {
+					if len(b) == 0 {
+						return false
+					}
+					b = b[1:]
+				}
+			}
+		case vm.CROAK:
+			if b, ok = refInt(b); ok {
+				if len(b) == 0 {
+					return false
+				}
+				b = b[1:]
+			}
+		case vm.LOAD:
+			if b, ok = refSym(b); ok {
+				b, ok = refInt(b)
+			}
+		case vm.RELOAD, vm.MAP, vm.MOVE:
+			b, ok = refSym(b)
+		case vm.INCMP, vm.MOUT, vm.MNEXT, vm.MPREV:
+			if b, ok = refSym(b); ok {
+				b, ok = refSym(b)
+			}
+		default:
+			return false
+		}
+		if !ok {
+			return false
+		}
+	}
+	return true
+}
+
+// Bytes: every byte string of length L through the disassembler. No panic,
+// and success only for strings the reference decoder accepts (and vice versa).
+func Bytes(v *vrt.Ctx) {
+	n := v.Param("L")
+	b := v.Bytes("code", n)
+	ph := vm.NewParseHandler().WithDefaultHandlers()
+	_, err := ph.ToString(b)
+	v.Observe("err", err)
+	valid := RefValid(b)
+	v.Observe("valid", valid)
+	if err == nil {
+		v.Cover("C15/accepted")
+		v.Assert(valid, "C15/accepted-implies-valid")
+	} else {
+		v.Cover("C15/rejected")
+		v.Assert(!valid, "C15/valid-implies-accepted")
+	}
+}
+
+// LongSym: one symbol-taking instruction whose length byte is arbitrary, in a
+// buffer of N bytes (N around the 255/256 boundary): decoded exactly or
+// rejected, never a panic.
+func LongSym(v *vrt.Ctx) {
+	n := 253 + v.Choice("buflen", 6) // 253..258
+	b := make([]byte, n)
+	for i := range b {
+		b[i] = 'a'
+	}
+	b[0] = v.U8("symlen")
+	sym, rest, err := vm.ParseMove(b)
+	v.Observe("err", err)
+	l := int(b[0])
+	if l == 0 || n < 1+l {
+		v.Assert(err != nil, "C15/longsym-rejected")
+		v.Cover("C15/longsym-reject")
+		return
+	}
+	v.Assert(err == nil, "C15/longsym-accepted")
+	v.Assert(len(sym) == l, "C15/longsym-length")
+	v.Assert(len(rest) == n-1-l, "C15/longsym-rest")
+	v.Observe("symlen", len(sym))
+	v.Cover("C15/longsym-ok")
+}
+
+// ParseLoad: arbitrary bytes through the LOAD argument decoder (kept as the
+// smallest smoke test of the executor).
 func ParseLoad(v *vrt.Ctx) {
 	n := v.Param("L")
 	b := v.Bytes("code", n)
@@ -21,4 +140,6 @@ func ParseLoad(v *vrt.Ctx) {
 
 var Harnesses = map[string]func(*vrt.Ctx){
 	"ParseLoad": ParseLoad,
+	"Bytes":     Bytes,
+	"LongSym":   LongSym,
 }
